@@ -22,6 +22,7 @@ import (
 	"fmt"
 	"os"
 	"sort"
+	"strings"
 	"sync"
 	"testing"
 	"time"
@@ -441,6 +442,15 @@ func c20Exec(raw json.RawMessage) interface{} {
 	if err := json.Unmarshal(raw, &in); err != nil {
 		return c20Obs{Err: "bad-input"}
 	}
+	// the kind table is the harness's: an input whose table was altered (shrinking) is rejected
+	if len(in.Cats) != len(c20Kinds) {
+		return c20Obs{Err: "bad-input"}
+	}
+	for k, e := range c20Kinds {
+		if in.Cats[k] != e.cat {
+			return c20Obs{Err: "bad-input"}
+		}
+	}
 	c20SetPanics(&in)
 
 	super := &Supervisor{
@@ -730,7 +740,7 @@ func c20ExecSuper(raw json.RawMessage) interface{} {
 		return c20Obs{Steps: []c20Step{}, Err: "run loops stuck in the previous cases"}
 	}
 	o := c20ExecSuper1(raw)
-	if ob, ok := o.(c20Obs); ok && ob.Err != "" {
+	if ob, ok := o.(c20Obs); ok && strings.Contains(ob.Err, "run loop") {
 		c20Stuck++
 	} else {
 		c20Stuck = 0
@@ -744,6 +754,15 @@ func c20ExecSuper1(raw json.RawMessage) interface{} {
 	var in c20Input
 	if err := json.Unmarshal(raw, &in); err != nil {
 		return c20Obs{Err: "bad-input"}
+	}
+	// the kind table is the harness's: an input whose table was altered (shrinking) is rejected
+	if len(in.Cats) != len(c20Kinds) {
+		return c20Obs{Err: "bad-input"}
+	}
+	for k, e := range c20Kinds {
+		if in.Cats[k] != e.cat {
+			return c20Obs{Err: "bad-input"}
+		}
 	}
 	c20SetPanics(&in)
 
